@@ -7,9 +7,13 @@ import json
 import sys
 from fractions import Fraction
 
+import os
+
 import jax
 
-jax.config.update("jax_enable_x64", True)
+if not os.environ.get("VERIF_WORKER_NO_X64"):
+    # with VERIF_WORKER_NO_X64 the problems are used on their own in a process that never switches 64-bit mode on
+    jax.config.update("jax_enable_x64", True)
 import jax.numpy as jnp  # noqa: E402
 import numpy as np  # noqa: E402
 
@@ -52,6 +56,9 @@ def sample_rows(n, widths, k, seed):
     for w in reversed(widths):
         stride *= w
         rows |= {r for r in (stride - 1, stride, stride + 1) if 1 <= r <= n}
+    # rows around the limits of narrow integer and floating-point types
+    for e in (8, 15, 16, 24, 31):
+        rows |= {r for r in range(2 ** e - 2, 2 ** e + 7) if 1 <= r <= n}
     while len(rows) < k:
         rows.add(rng.randint(1, n))
     return sorted(rows)
@@ -109,7 +116,7 @@ def observe(P, prob):
         ok = fr.denominator == 1 and abs(fr.numerator) < 2 ** 30
         rew_ok.append(bool(ok))
         rew_i.append(int(fr.numerator) if ok else 0)
-    Pj = {k: v for k, v in P.items() if k not in ("coef", "p", "mean_a", "mean_b", "sample", "sample_seed")}
+    Pj = {k: v for k, v in P.items() if k not in ("coef", "p", "mean_a", "mean_b", "sample", "sample_seed", "no_x64")}
     nrow = []
     if srows:
         fa = np.asarray(full)
